@@ -11,6 +11,7 @@
    (oracles returning option), scripted handlers that return normally. *)
 From Coq Require Import List NArith Bool ZArith.
 From VR Require Import Model.C03 Proofs.C03.
+From VR Require Model.C10.
 Import ListNotations.
 Open Scope N_scope.
 
@@ -73,6 +74,39 @@ Theorem lattice_sweep : forallb (fun i => spec_ok i (model i)) sweep = true /\ N
 Proof. exact (conj sweep_ok sweep_size). Qed.
 Corollary lattice_sweep_forall : forall i, In i sweep -> spec_ok i (model i) = true.
 Proof. exact (proj1 (forallb_forall _ _) sweep_ok). Qed.
+
+(* the protocol-version gate parses the client's vgi_rpc.protocol_version outside
+   every recover: for EVERY byte string that is not canonical MAJOR.MINOR.PATCH
+   (empty components such as 1..0, lone dots, missing or extra components,
+   non-ASCII digits, raw bytes, any length) every gated call — pipe unary /
+   producer / exchange / dynamic, HTTP unary, HTTP stream init — is answered with
+   the ProtocolVersionError and the pipe serves the next request; whatever
+   metadata precedes the value *)
+Theorem malformed_version_answered_everywhere : forall cv, C10.parse cv = None ->
+  model (mkv Pipe [] (pv_req (str "u_int") cv)) = {| o_out := OErr pv_error_type; o_status := 0; o_errhdr := false; o_next := true |}
+  /\ model (mkv Pipe [] (pv_req (str "p_only") cv)) = {| o_out := OErr pv_error_type; o_status := 0; o_errhdr := false; o_next := true |}
+  /\ model (mkv Pipe [] (pv_req (str "e_only") cv)) = {| o_out := OErr pv_error_type; o_status := 0; o_errhdr := false; o_next := true |}
+  /\ model (mkv Pipe [] (pv_req (str "dyn") cv)) = {| o_out := OErr pv_error_type; o_status := 0; o_errhdr := false; o_next := true |}
+  /\ model (mkv HUnary (str "u_int") (pv_req (str "u_int") cv)) = hresp 400 pv_error_type
+  /\ model (mkv HInit (str "p_only") (pv_req (str "p_only") cv)) = hresp 400 pv_error_type
+  /\ model (mkv HInit (str "e_only") (pv_req (str "e_only") cv)) = hresp 400 pv_error_type
+  /\ model (mkv HInit (str "dyn") (pv_req (str "dyn") cv)) = hresp 400 pv_error_type.
+Proof. exact malformed_version_answered. Qed.
+
+Theorem malformed_version_refused_after_any_metadata : forall (m : list kv) cv,
+  C10.parse cv = None -> pv_refused true (m ++ [(meta_protocol_version, cv)]) = true.
+Proof. exact pv_refused_malformed. Qed.
+
+Theorem version_never_parsed_when_ungated : forall cv,
+  o_out (model (mkv Pipe [] (pv_req c03_method_describe cv))) = OOk
+  /\ pv_refused false (std_meta (str "u_int") ++ [(meta_protocol_version, cv)]) = false.
+Proof. exact version_not_parsed_when_ungated. Qed.
+
+(* the premise is met by the shapes a hand-written parser gets wrong *)
+Example malformed_versions_nonvacuous :
+  C10.parse (str "1..0") = None /\ C10.parse (str "..") = None /\ C10.parse [] = None
+  /\ C10.parse (str "2.10.") = None /\ C10.parse (str "2.10.3") <> None.
+Proof. vm_compute. repeat split; discriminate. Qed.
 
 (* FINDING in the code as it stands (arrow-go v18 ipc reader, reached from
    ReadRequest / handleStreamExchange): a body for which the decoder requests
